@@ -165,6 +165,43 @@ pub fn ring_inv_large<const NM: usize>(m: [Word; NM], f: [Word; 2], bits: u32) {
     core::mem::forget(ring);
 }
 
+/// multi-word ring inverse (modular/div.rs `inv_large`, through the verification hook) at LITERAL points:
+/// two 3-word moduli m = (2^64+1)*c (one normalised, one needing a shift) and residues of 1, 2 and 3 words,
+/// with and without a common factor (including a multi-word gcd whose lowest word is 1); expected values
+/// are constants computed outside (Python pow(a, -1, m))
+pub fn ring_inv_large_literals(which: u8) {
+    let (m, a, want): (&[Word], &[Word], Option<[Word; 3]>) = match which {
+        0 => (&[3,4,1], &[1,1], None),
+        1 => (&[3,4,1], &[3,3], None),
+        2 => (&[3,4,1], &[2,2], None),
+        3 => (&[3,4,1], &[1,2,1], None),
+        4 => (&[3,4,1], &[5], Some([2,11068046444225730972,0])),
+        5 => (&[3,4,1], &[2,1], Some([2,1,0])),
+        6 => (&[3,4,1], &[12345,68719476736], Some([4512359598375357663,5395363044116230147,0])),
+        7 => (&[3,4,1], &[9,9223372036854775872], Some([5904304408245379833,10304445196469676549,0])),
+        8 => (&[3,4,1], &[2,4,1], Some([2,4,1])),
+        9 => (&[3,4,1], &[2,3,1], None),
+        10 => (&[21,27,6], &[1,1], None),
+        11 => (&[21,27,6], &[3,3], None),
+        12 => (&[21,27,6], &[5,6,1], None),
+        13 => (&[21,27,6], &[1,2,1], None),
+        14 => (&[21,27,6], &[5], Some([11068046444225730974,3689348814741910328,1])),
+        15 => (&[21,27,6], &[2,1], None),
+        16 => (&[21,27,6], &[12345,68719476736], Some([363407706539826622,1246411152280699111,5])),
+        17 => (&[21,27,6], &[9,9223372036854775872], None),
+        18 => (&[21,27,6], &[20,27,6], Some([20,27,6])),
+        19 => (&[21,27,6], &[20,26,6], None),
+        _ => return,
+    };
+    let got = dashu_int::verif::modular_large::verif_inv_large(m, a);
+    match (got, want) {
+        (None, None) => {}
+        (Some(x), Some(w)) => assert!(x.len() == 3 && x[0] == w[0] && x[1] == w[1] && x[2] == w[2], "wrong inverse in a multi-word ring"),
+        (Some(_), None) => panic!("inverse returned for an element sharing a factor with the modulus"),
+        (None, Some(_)) => panic!("no inverse although gcd(a, m) = 1"),
+    }
+}
+
 /// multi-word ring kernels (modular/add.rs) through the verification hook: raw residues are symbolic
 /// values below the literal modulus (pre-shifted by the normalisation shift), result = (a op b) mod m
 pub fn ring_large_kernel<const NM: usize>(m: [Word; NM], op: u8) {
